@@ -501,7 +501,7 @@ func runC18(ctx Ctx) int {
 		}
 		return 0
 	}
-	deadline := devx.Deadline(map[string]time.Duration{"quick": 5 * time.Minute, "thorough": 30 * time.Minute}[run.Tier])
+	deadline := devx.Deadline(map[string]time.Duration{"quick": 5 * time.Minute, "thorough": 15 * time.Minute}[run.Tier])
 	// ---- A: codec
 	maxLen := 5
 	if run.Tier == "thorough" {
@@ -670,7 +670,7 @@ func runC18(ctx Ctx) int {
 	{
 		cb, cs := 1, 90
 		if ev.Tier() == "thorough" {
-			cb, cs = 2, 1200
+			cb, cs = 2, 180
 		}
 		runConc(run, "C18", cb, cs)
 	}
